@@ -18,8 +18,14 @@ type lineLimitReader struct {
 	curLineLength int
 }
 
+// tooLong reports whether the current line already exceeds the limit, in which
+// case Read fails with ErrTooLongLine.
+func (r *lineLimitReader) tooLong() bool {
+	return r.curLineLength > r.LineLimit && r.LineLimit > 0
+}
+
 func (r *lineLimitReader) Read(b []byte) (int, error) {
-	if r.curLineLength > r.LineLimit && r.LineLimit > 0 {
+	if r.tooLong() {
 		return 0, ErrTooLongLine
 	}
 
